@@ -1,5 +1,5 @@
 """C18 — evaluation results and regions survive serialisation: correspondence of EvaluationResult.to_dict/from_dict,
-csep.write_json (json.dump default=str), csep.load_evaluation_result and CartesianGrid2D.to_dict/from_dict with
+csep.write_json (json.dump default=_json_default), csep.load_evaluation_result and CartesianGrid2D.to_dict/from_dict with
 Model/ResultJson.lean + direct oracle on the real round trip."""
 import ast
 import contextlib
@@ -17,21 +17,22 @@ import numpy
 
 from .core import Driver, REPO, frac, next_down, next_up
 
-NOT_APPLICABLE = "temporarily unclaimed: the C18 model is being updated to /repo fix 98f1bb3 (numpy scalars now written as JSON numbers)"
-LEVEL_TEXT = ("Proof: a field value whose kinds lie in {int, bool, float, numpy.float64, str, None, lists/tuples/arrays of "
-              "these} is read back equal after json.dump(default=str)/json.load, for every nesting and length (structural "
-              "induction), tuples as lists and NaN as NaN; every result class of models.py has a factory entry building "
+LEVEL_TEXT = ("Proof: a field value whose kinds lie in {int, bool, float, numpy integer/bool/floating scalars, str, None, "
+              "lists/tuples/arrays of these} is read back equal after json.dump(default=_json_default)/json.load, for every "
+              "nesting and length (structural induction), numpy scalars as the numbers they hold, tuples as lists and NaN as NaN; every result class of models.py has a factory entry building "
               "that class (decide over tables re-extracted from the source on every run); a written result of a known "
               "class loads as the same class with all nine fields equal; an unmasked region rebuilt from its dictionary "
               "is the same region, hence indexes every point identically. Tied to the code by running all 19 public "
               "evaluation functions on generated inputs (incl. -inf, nan, None outcomes), recording the kind of every "
               "field (the safe-set hypothesis), and comparing the real write/load with the model field by field.")
 LEVEL_NOTE = ("The JSON text layer (json.dumps/loads of the value tree, float repr round trip, NaN/Infinity tokens) is "
-              "trusted and re-checked on every generated value. numpy integer scalars are NOT in the safe set: they come "
-              "back as strings (known finding D21 when a forecast is given integer magnitude edges).")
+              "trusted and re-checked on every generated value. Only objects that reach str(obj) in _json_default (an ndarray "
+              "nested in a field, a datetime) are outside the safe set; no evaluation function stores one. The former defect "
+              "D29 (numpy.int64 min_mw written as a string, fixed by 98f1bb3) is a permanent corpus case.")
 DESIGN_REF = "DESIGN.md §4 C18"
 
-THEOREMS = ["ResultJson.roundtrip_safe", "ResultJson.unsafe_kinds_do_not_roundtrip", "ResultJson.roundtrip_idempotent",
+THEOREMS = ["ResultJson.roundtrip_safe", "ResultJson.numpy_scalars_roundtrip_as_numbers",
+            "ResultJson.stringified_objects_do_not_roundtrip", "ResultJson.roundtrip_idempotent",
             "ResultJson.loaded_is_plain", "ResultJson.roundtrip_stable", "ResultJson.safe_decidable", "ResultJson.factory_total", "ResultJson.factory_aliases",
             "ResultJson.class_preserved", "ResultJson.write_fails_iff", "ResultJson.result_roundtrip",
             "ResultJson.string_distribution_split", "ResultJson.rebuild_eq", "ResultJson.rebuild_same_index",
@@ -40,7 +41,8 @@ TRUSTED = ["Lean 4.33 kernel", "axioms: propext, Classical.choice, Quot.sound at
            "CPython json: dumps/loads of a tree of None/bool/int/float/str/list is the identity (float repr round trip, "
            "NaN / Infinity / -Infinity tokens); re-checked on every generated field value",
            "numpy.float64 is a float subclass and json writes it as a number; every other numpy scalar reaches "
-           "default=str (both re-checked per value by the correspondence)",
+           "_json_default and is written as its .item(); other unknown objects as str(obj) (all re-checked per value by "
+           "the correspondence)",
            "the tables resultClasses / factoryTable of Model/ResultJson.lean equal the source: re-extracted with ast "
            "(factory dict of load_evaluation_result) and introspection (subclasses in csep.models) on every run and "
            "compared through the driver op c18_tables",
@@ -58,7 +60,6 @@ RULE = ("results: 19 evaluation functions x variants {normal, zero_rate (-inf), 
 
 FIELDS = ("test_distribution", "name", "observed_statistic", "quantile", "status", "obs_catalog_repr", "sim_name",
           "obs_name", "min_mw")
-KNOWN_SIG_NPINT = "result-field-kind:numpy-scalar-not-float64"
 
 
 # ----------------------------------------------------------------------------- value encoding (shared with Drive/C18.lean)
@@ -75,7 +76,7 @@ def f64tok(x):
 
 def enc(v, td=False):
     """prefix encoding of a Python value by EXACT type; an ndarray is an array only as test_distribution (to_dict calls
-    .tolist()), anywhere else json's default=str stringifies it"""
+    .tolist()), anywhere else _json_default stringifies it (as any object that is not a numpy scalar)"""
     t = type(v)
     if v is None:
         return ["n"]
@@ -91,8 +92,10 @@ def enc(v, td=False):
         return ["B1" if v else "B0"]
     if isinstance(v, numpy.integer):
         return [f"I{int(v)}"]
-    if isinstance(v, numpy.generic):
-        return ["o" + hexs(str(v))]
+    if isinstance(v, numpy.floating):
+        return ["G" + f64tok(float(v))]          # float32 / float16: .item() is the Python float it holds
+    if isinstance(v, str):
+        return ["s" + hexs(str(v))]              # str and str subclasses (numpy.str_) are written natively
     if t is str:
         return ["s" + hexs(v)]
     if t is list:
@@ -129,6 +132,8 @@ def is_safe(v, td=False):
     t = type(v)
     if v is None or t in (bool, int, float, str) or t is numpy.float64:
         return True
+    if isinstance(v, (numpy.integer, numpy.bool_, numpy.floating)):
+        return True
     if t in (list, tuple):
         return all(is_safe(e) for e in v)
     if isinstance(v, numpy.ndarray) and td:
@@ -137,9 +142,13 @@ def is_safe(v, td=False):
 
 
 def py_norm(v, td=False):
-    """what 'equal after the round trip' means: tuples/arrays as lists, numpy.float64 as float"""
+    """what 'equal after the round trip' means: tuples/arrays as lists, numpy scalars as the Python numbers they hold"""
     t = type(v)
-    if t is numpy.float64:
+    if isinstance(v, numpy.bool_):
+        return bool(v)
+    if isinstance(v, numpy.integer):
+        return int(v)
+    if isinstance(v, numpy.floating):
         return float(v)
     if t in (list, tuple):
         return [py_norm(e) for e in v]
@@ -149,7 +158,11 @@ def py_norm(v, td=False):
 
 
 def same(a, b):
-    """type-exact equality with NaN == NaN"""
+    """equality of VALUES: numbers compared numerically (4 == 4.0, NaN == NaN, -0.0 distinguished from 0.0 only
+    between floats), bools only with bools, strings with strings, None with None, lists elementwise"""
+    num = lambda x: isinstance(x, (int, float)) and not isinstance(x, bool)
+    if num(a) and num(b) and type(a) is not type(b):
+        return a == b
     if type(a) is not type(b):
         return False
     if isinstance(a, list):
@@ -443,22 +456,19 @@ def check_result(run, drv, pend, res, case, produced_by_library, tmp):
                 run.mismatch(dict(case, op="re-save"), f"{type(e).__name__}: {e}", "roundtrip_stable")
     # --- oracle (only for results the library produced, or synthetic ones made of safe kinds)
     judge = produced_by_library or all(safe.values())
-    sig = None
     if produced_by_library and not all(safe.values()):
-        bad = [f for f in FIELDS if not safe[f]]
-        if all(isinstance(_first_unsafe(vals[f]), numpy.generic) for f in bad):
-            sig = KNOWN_SIG_NPINT
+        run.count("library-result-with-unsafe-kind:" + ",".join(f for f in FIELDS if not safe[f]))
     if judge:
         if not wrote:
             if produced_by_library:
-                run.oracle_failure(case, f"write_json raised {werr}", sig)
+                run.oracle_failure(case, f"write_json raised {werr}")
             else:
                 run.count("synthetic-unwritable(test_distribution not iterable)")
         elif lerr:
-            run.oracle_failure(case, f"load_evaluation_result raised {lerr}", sig)
+            run.oracle_failure(case, f"load_evaluation_result raised {lerr}")
         else:
             if type(loaded).__name__ != cls:
-                run.oracle_failure(case, f"class {cls} loaded back as {type(loaded).__name__}", sig)
+                run.oracle_failure(case, f"class {cls} loaded back as {type(loaded).__name__}")
             for f in FIELDS:
                 got = py_norm(getattr(loaded, f), td=True)
                 if f == "test_distribution":
@@ -469,8 +479,7 @@ def check_result(run, drv, pend, res, case, produced_by_library, tmp):
                 else:
                     exp = py_norm(vals[f])
                 if not same(got, exp):
-                    run.oracle_failure(dict(case, field=f), f"{cls}.{f}: wrote {vals[f]!r} ({kinds[f]}), loaded {got!r}",
-                                       sig if not safe[f] else None)
+                    run.oracle_failure(dict(case, field=f), f"{cls}.{f}: wrote {vals[f]!r} ({kinds[f]}), loaded {got!r}")
     # --- model
     if wrote and not lerr:
         for f in FIELDS:
@@ -526,10 +535,28 @@ def gen_scalar(rng, allow_unsafe):
         return None
     if k < 0.75:
         return rng.random() < 0.5
-    if allow_unsafe:
+    if k < 0.9:
+        # numpy scalars: written through .item() (safe since 98f1bb3)
         return rng.choice([numpy.int64(rng.randrange(-50, 50)), numpy.int32(3), numpy.bool_(rng.random() < 0.5),
-                           numpy.float32(1.5), numpy.uint8(200), numpy.float32(math.nan), numpy.int64(2 ** 62)])
+                           numpy.float32(1.5), numpy.uint8(200), numpy.float32(math.nan), numpy.int64(2 ** 62),
+                           numpy.float16(0.1), numpy.float32(-math.inf), numpy.int64(0)])
+    if allow_unsafe:
+        # objects json cannot encode and that are not numpy scalars reach str(obj)
+        return rng.choice([Opaque("2020-01-01 00:00:00"), Opaque("<obj>"), numpy.array([1.0, 2.0]), numpy.array([[1, 2], [3, 4]])])
     return rng.uniform(-5, 5)
+
+
+class Opaque:
+    """an object json cannot encode and that is not a numpy scalar: _json_default writes str(obj)"""
+
+    def __init__(self, s):
+        self.s = s
+
+    def __str__(self):
+        return self.s
+
+    def __repr__(self):
+        return f"Opaque({self.s!r})"
 
 
 def gen_value(rng, depth, allow_unsafe):
@@ -551,7 +578,7 @@ def gen_td(rng, allow_unsafe):
     if k < 0.5:
         return rng.choice(["normal", "", "ab"])
     if k < 0.55 and allow_unsafe:
-        return rng.choice([None, 3.5, 7, numpy.float64(2.5), numpy.int64(4)])
+        return rng.choice([None, 3.5, 7, numpy.float64(2.5), numpy.int64(4), numpy.float32(0.5)])
     v = gen_value(rng, 2, allow_unsafe)
     return v if isinstance(v, (list, tuple)) else [v]
 
@@ -578,12 +605,13 @@ def dec(tokens):
             return numpy.bool_(b == "1")
         if h == "s":
             return bytes.fromhex(b).decode("utf-8")
+        if h == "G":
+            x = math.nan if b == "nan" else struct.unpack("<d", struct.pack("<Q", int(b)))[0]
+            with numpy.errstate(all="ignore"):
+                y = numpy.float32(x)
+            return y if (x != x or float(y) == x) else numpy.float16(x)
         if h == "o":
-            s = bytes.fromhex(b).decode("utf-8")
-            try:
-                return numpy.float32(s)
-            except ValueError:
-                return numpy.float32(0)
+            return Opaque(bytes.fromhex(b).decode("utf-8"))
         if h in "lta":
             xs = [one() for _ in range(int(b))]
             return xs if h == "l" else (tuple(xs) if h == "t" else numpy.array(xs))
